@@ -539,3 +539,122 @@ Proof.
   - intro lq. rewrite <- Hden. unfold den. cbn [set_pref d_quads]. rewrite !in_map_iff.
     split; intros (q & E & Hq); exists q; [rewrite <- F | rewrite F]; auto.
 Qed.
+
+(* ---------------------------------------------------------------------------------------------- *)
+(* a whole chunk *)
+Lemma n3_items : forall doc x e qs,
+  wf_doc_n3 doc = true -> LocInv x e qs -> (length qs + length doc <= 1000)%nat ->
+  exists x' e', fold_left n3_line (map trim (render_doc doc)) (x, []) = (x', []) /\
+                LocInv x' e' (qs ++ quads_from e doc).
+Proof.
+  induction doc as [|i doc IH]; intros x e qs Hw Hinv Hl.
+  - exists x, e. cbn [render_doc map fold_left quads_from]. rewrite app_nil_r. auto.
+  - unfold wf_doc_n3 in Hw. cbn [forallb] in Hw. apply andb_true_iff in Hw. destruct Hw as [Hi Hw].
+    cbn [length] in Hl. cbn [render_doc map fold_left quads_from].
+    destruct i as [ws|ws text|pd s p o g|name iri|s pos]; cbn [wf_item_n3] in Hi; try discriminate.
+    + cbn [render_item]. rewrite n3_line_blank by exact Hi.
+      destruct (IH x e qs Hw Hinv ltac:(lia)) as (x' & e' & E & K). exists x', e'. auto.
+    + cbn [render_item]. rewrite n3_line_comment by exact Hi.
+      destruct (IH x e qs Hw Hinv ltac:(lia)) as (x' & e' & E & K). exists x', e'. auto.
+    + destruct g as [g|]; [discriminate|].
+      apply andb_true_iff in Hi. destruct Hi as [Hi Ho]. apply andb_true_iff in Hi. destruct Hi as [Hi Hp].
+      apply andb_true_iff in Hi. destruct Hi as [Hpd Hs].
+      cbn [render_item]. rewrite n3_line_stmt by assumption. rewrite (li_pref _ _ _ Hinv).
+      assert (L2 : (length qs < 2000)%nat) by lia.
+      pose proof (locinv_stmt x e qs s p o Hinv L2) as K1.
+      assert (L3 : (length (qs ++ [(lex e s, lex e p, lex e o, None)]) + length doc <= 1000)%nat)
+        by (rewrite app_length; cbn [length]; lia).
+      destruct (IH _ e _ Hw K1 L3) as (x' & e' & E & K). exists x', e'. split; [exact E|].
+      cbn [item_quads item_env]. rewrite <- app_assoc in K. exact K.
+    + apply andb_true_iff in Hi. destruct Hi as [Hn Hiri].
+      rewrite render_prefix. rewrite n3_line_prefix by assumption.
+      pose proof (locinv_prefix x e qs name iri Hinv) as K1.
+      destruct (IH _ ((name, iri) :: e) qs Hw K1 ltac:(lia)) as (x' & e' & E & K). exists x', e'. split; [exact E|].
+      cbn [item_quads item_env app]. exact K.
+Qed.
+
+(* ---------------------------------------------------------------------------------------------- *)
+(* absorbing the chunk into a database whose dictionary is empty *)
+Lemma fold_add_quad_in : forall qs x r, In r (d_quads (fold_left add_quad qs x)) <-> In r (d_quads x) \/ In r qs.
+Proof.
+  induction qs as [|q qs IH]; intros x r; cbn [fold_left In]; [tauto|].
+  rewrite IH, add_quad_in. split; [intros [[H|H]|H] | intros [H|[H|H]]]; auto.
+Qed.
+
+Lemma fold_add_quad_frame : forall qs x,
+  d_dict (fold_left add_quad qs x) = d_dict x /\ d_qts (fold_left add_quad qs x) = d_qts x.
+Proof.
+  induction qs as [|q qs IH]; intro x; cbn [fold_left]; [auto|].
+  destruct (IH (add_quad x q)) as [A B]. destruct (add_quad_frame x q) as (C & D & _). split; congruence.
+Qed.
+
+Lemma filter_plain : forall x l, Forall (plain_ok x) l ->
+  filter (fun q : N * N * N * option N => match snd q with None => true | Some _ => false end) l = l.
+Proof.
+  induction 1 as [|[[[s p] o] g] l (G & _) Hl IH]; [reflexivity|]. cbn [filter snd]. subst g. rewrite IH. reflexivity.
+Qed.
+
+Lemma absorb_den : forall self loc,
+  db_ok self -> dict_nonempty (d_dict self) = false ->
+  dict_ok (d_dict loc) -> next_id (d_dict loc) <= QBIT -> Forall (plain_ok loc) (d_quads loc) ->
+  forall lq, In lq (den (n3_absorb self loc)) <-> In lq (den loc).
+Proof.
+  intros self loc Hs He Hd Hn Hp lq.
+  destruct (dict_empty _ He) as (E1 & E2 & E3). destruct (empty_dict_no_quads self Hs E2) as [Q0 _].
+  unfold n3_absorb. cbv zeta. rewrite (filter_plain loc _ Hp).
+  set (self1 := fold_left add_quad (d_quads loc) self).
+  destruct (fold_add_quad_frame (d_quads loc) self) as [Fd Fq]. fold self1 in Fd, Fq.
+  set (self2 := set_dict self1 (dict_merge (d_dict self1) (d_dict loc))).
+  assert (Dq : forall q, plain_ok loc q -> den_quad (set_pref self2 (d_pref loc ++ d_pref self2)) q = den_quad loc q).
+  { intros [[[s p] o] g] (G & [a Ha] & [b Hb] & [c Hc]). subst g.
+    assert (P : forall i v, dict_decode (d_dict loc) i = Some v ->
+                decode_any (set_pref self2 (d_pref loc ++ d_pref self2)) i = Some v /\ decode_any loc i = Some v).
+    { intros i v Hi. destruct Hd as [_ B]. pose proof (B _ _ Hi) as Hlt.
+      assert (Nq : is_quoted i = false) by (unfold is_quoted; apply N.leb_gt; lia).
+      unfold decode_any. cbn [decode_term]. rewrite Nq. split; [|exact Hi].
+      unfold self2, dict_decode. cbn [set_pref set_dict d_dict dict_merge i2s]. rewrite merge_i_assoc. rewrite Fd, E2. cbn [assoc_n]. exact Hi. }
+    cbn [den_quad]. destruct (P _ _ Ha) as [A1 A2]. destruct (P _ _ Hb) as [B1 B2]. destruct (P _ _ Hc) as [C1 C2].
+    rewrite A1, A2, B1, B2, C1, C2. reflexivity. }
+  unfold den. rewrite !in_map_iff. cbn [set_pref set_dict d_quads].
+  rewrite Forall_forall in Hp.
+  split; intros (q & Eq & Hq).
+  - apply fold_add_quad_in in Hq. rewrite Q0 in Hq. destruct Hq as [[]|Hq].
+    exists q. split; [rewrite <- Eq; symmetry; apply Dq; apply Hp; exact Hq | exact Hq].
+  - exists q. split; [rewrite <- Eq; apply Dq; apply Hp; exact Hq | apply fold_add_quad_in; right; exact Hq].
+Qed.
+
+(* ---------------------------------------------------------------------------------------------- *)
+Lemma chunks_single : forall {A} (n : nat) (l : list A), l <> [] -> (length l <= n)%nat -> chunks n l = [l].
+Proof.
+  intros A n l Hne Hl. unfold chunks. destruct l as [|a l']; [contradiction|].
+  cbn [length chunks_aux]. rewrite firstn_all2 by exact Hl. rewrite skipn_all2 by exact Hl.
+  destruct (length l'); reflexivity.
+Qed.
+
+Lemma n3_main : forall (doc : list item) (x : db),
+  wf_doc_n3 doc = true -> known_C13_n3 doc x = false -> db_ok x ->
+  forall lq, In lq (den (load_n3 (render_doc doc) x)) <-> In lq (den x) \/ In lq (map lq_of4 (triples_of doc)).
+Proof.
+  intros doc x Hw Hk Hx lq. unfold known_C13_n3 in Hk. apply orb_false_iff in Hk. destruct Hk as [He Hm].
+  unfold multichunk in Hm. apply Nat.ltb_ge in Hm.
+  destruct (dict_empty _ He) as (_ & E2 & _). destruct (empty_dict_no_quads x Hx E2) as [_ D0].
+  unfold load_n3, load_n3_n. destruct doc as [|i doc'].
+  - cbn. rewrite D0. tauto.
+  - set (doc := i :: doc') in *.
+    rewrite chunks_single; [| unfold doc; cbn; discriminate | unfold render_doc; rewrite !map_length; exact Hm].
+    cbn [map fold_left]. unfold n3_chunk.
+    destruct (n3_items doc db_new [] [] Hw locinv_new) as (x' & e' & E & K); [cbn [length]; unfold CHUNK in Hm; lia|].
+    rewrite E. cbn [fst app] in *. unfold triples_of.
+    rewrite absorb_den; [| exact Hx | exact He | apply (li_ok _ _ _ K) | | apply (li_plain _ _ _ K)].
+    + rewrite (li_den _ _ _ K). rewrite D0. cbn [In]. tauto.
+    + pose proof (li_next _ _ _ K) as B. 
+      assert (L : (length (quads_from [] doc) <= 1000)%nat).
+      { clear -Hw Hm. unfold CHUNK in Hm. revert Hm. generalize ([] : env). generalize 1000%nat.
+        induction doc as [|j d IH]; intros n e Hl; cbn [quads_from length] in *; [lia|].
+        unfold wf_doc_n3 in Hw. cbn [forallb] in Hw. apply andb_true_iff in Hw. destruct Hw as [Hj Hw].
+        rewrite app_length. destruct n as [|n]; [lia|]. specialize (IH Hw n (item_env e j) ltac:(lia)).
+        assert (length (item_quads e j) <= 1)%nat.
+        { destruct j; cbn [item_quads length]; try lia. discriminate. }
+        lia. }
+      unfold QBIT. lia.
+Qed.
